@@ -11,7 +11,7 @@ Definition param (j : nat) : str := [108%N; N.of_nat (48 + j)]. (* "l<j>" *)
 
 Definition shapes : list shape := [ShG; ShS; ShSN; ShSNN; ShGN; ShGNN].
 Definition nunits (sh : shape) : nat :=
-  match sh with ShG | ShS => 1 | ShSN | ShGN => 2 | ShSNN | ShGNN => 3 end.
+  match sh with ShG | ShS | ShGI => 1 | ShSN | ShGN => 2 | ShSNN | ShGNN => 3 end.
 
 (* every list of shapes whose objects number at most `budget` (fuel >= budget suffices: a shape has >= 1 object) *)
 Fixpoint shape_lists (fuel budget : nat) : list (list shape) :=
@@ -112,3 +112,42 @@ Lemma small_space3_ok :
   forall shs ls, In shs layouts_upto2 -> In ls (link_seqs3 (components (decls_from 0 shs))) ->
   (case_ok nofix (decls_from 0 shs, ls) && case_ok_fixed (decls_from 0 shs, ls)) = true.
 Proof. apply (layouts_ok3_forall (fun c => case_ok nofix c && case_ok_fixed c)). vm_cast_no_check (eq_refl true). Qed.
+
+(* ---- targets that only the FINAL pass of instantiate_classes fills ------------------------------------------------
+   One class group added with instantiate=False (ShGI) at every declaration position of every layout with at most two
+   constructed objects; link targets: the parameters of every constructed object AND of the never instantiated group. *)
+Definition link_choices_t (srcs tgts : list str) (j : nat) : list link :=
+  flat_map (fun s =>
+    flat_map (fun attr : bool =>
+      flat_map (fun t =>
+        map (fun fn : bool => {| l_id := j; l_srcs := [if attr then s ++ dot :: s_at else s];
+                                 l_target := t ++ param j; l_fn := fn |}) [false; true]) tgts) [false; true]) srcs.
+
+Definition link_seqs_sink (ds : list decl) : list (list link) :=
+  let srcs := map c_dest (components ds) in
+  let tgts := tgt_prefixes (components ds) ++ map (fun n => n ++ [dot]) (sinks_of ds) in
+  map (fun l => [l]) (link_choices_t srcs tgts 0)
+  ++ flat_map (fun l0 => map (fun l1 => [l0; l1]) (link_choices_t srcs tgts 1)) (link_choices_t srcs tgts 0).
+
+Fixpoint insertions {A} (x : A) (l : list A) : list (list A) :=
+  match l with
+  | [] => [[x]]
+  | y :: r => (x :: l) :: map (cons y) (insertions x r)
+  end.
+Definition layouts_sink : list (list shape) := flat_map (insertions ShGI) (shape_lists 2 2).
+
+Definition layout_ok_sink (ok : list decl * list link -> bool) (shs : list shape) : bool :=
+  let ds := decls_from 0 shs in forallb (fun ls => ok (ds, ls)) (link_seqs_sink ds).
+
+Lemma layouts_ok_sink_forall ok lays :
+  forallb (layout_ok_sink ok) lays = true ->
+  forall shs ls, In shs lays -> In ls (link_seqs_sink (decls_from 0 shs)) -> ok (decls_from 0 shs, ls) = true.
+Proof.
+  intros H shs ls Hs Hl. rewrite forallb_forall in H. specialize (H shs Hs).
+  unfold layout_ok_sink in H. rewrite forallb_forall in H. exact (H ls Hl).
+Qed.
+
+Lemma small_space_sink_ok :
+  forall shs ls, In shs layouts_sink -> In ls (link_seqs_sink (decls_from 0 shs)) ->
+  (case_ok nofix (decls_from 0 shs, ls) && case_ok_fixed (decls_from 0 shs, ls)) = true.
+Proof. apply (layouts_ok_sink_forall (fun c => case_ok nofix c && case_ok_fixed c)). vm_cast_no_check (eq_refl true). Qed.
